@@ -172,3 +172,15 @@ Print Assumptions reader_symbols_never_start_with_dollar.
 Theorem gensym_counter_increases : forall args st v st', op_gensym args st = Ok v st' -> st_gensym st' = st_gensym st + 1.
 Proof. exact gensym_increases. Qed.
 Print Assumptions gensym_counter_increases.
+
+(** macro expansion never looks inside quoted data; a quoted datum evaluates to itself *)
+From WalModel.proofs Require QuoteProofs.
+Theorem expansion_leaves_quoted_data_alone : forall ev ex w args parent st,
+  expand_body ev ex (VList w (VOp OQuote :: args)) parent st = Ok (VList w (VOp OQuote :: args)) st /\
+  expand_body ev ex (VList w (VOp OQuasiquote :: args)) parent st = Ok (VList w (VOp OQuasiquote :: args)) st.
+Proof. exact QuoteProofs.expand_leaves_quoted. Qed.
+Print Assumptions expansion_leaves_quoted_data_alone.
+Theorem quote_returns_its_operand_unevaluated : forall lf f w x st,
+  eval lf (S (S f)) (VList w [VOp OQuote; x]) st = Ok x st.
+Proof. exact QuoteProofs.quote_returns_its_operand. Qed.
+Print Assumptions quote_returns_its_operand_unevaluated.
